@@ -7,7 +7,7 @@ PROP = "C06"
 RULE = ("templates = instruction texts of tests/comparison (47 CPUs, plus hand-written forms) with ONE hole: a numeric "
         "literal (immediate, displacement, address/branch target, bit number) or the digits of a register token. For "
         "each template the sweep S = {0, +-1, +-2^k, +-(2^k +- 1), k<=32} plus, for every accepted v, v +- 2^j (j<=32) "
-        "and the same offsets around the instruction's own address (0x10000000, for branch distances) are assembled value by value (sanitized, in-process); non-negative values next to an accept/reject boundary are also spelled as a label defined AFTER the instruction (.org v / label:), where any collision is a truncation. Width-agnostic metamorphic oracle: two "
+        "and the same offsets around the instruction's own address (0x10000000, for branch distances) are assembled value by value (sanitized, in-process); non-negative values next to an accept/reject boundary are also spelled as a label defined AFTER the instruction (.org v / label:), (only values whose byte address fits below 2^31, so the label really has that value). Width-agnostic metamorphic oracle: two "
         "accepted values with the same encoding are allowed only if they are the signed/unsigned spellings of one "
         "field value (-2^(w-1) <= v1 < 0, v2 = v1 + 2^w, one w per template and encoding length); any other collision is a silent truncation. "
         "Register holes: different register numbers never share an encoding. non-trivial = template with >=2 accepted "
@@ -110,7 +110,7 @@ def check_template(w, s, cpu, directive, unit, t, span, is_reg):
                 run(v + (1 << j))
                 run(v - (1 << j))
         for v in sorted(tried):
-            if 0 <= v < (1 << 32) and (v in acc or v - 1 in acc or v + 1 in acc or (v & (v - 1)) == 0):
+            if 0 <= v * unit < (1 << 31) and (v in acc or v - 1 in acc or v + 1 in acc or (v & (v - 1)) == 0):
                 run_fwd(v)
     s.count("templates_checked")
     if len(acc) >= 2 and rej >= 1:
@@ -126,6 +126,13 @@ def check_template(w, s, cpu, directive, unit, t, span, is_reg):
                 continue
             vs = sorted(set(vs))
             if is_reg:
+                # register lists are sets: a collision among registers that are all named elsewhere in the
+                # statement (mmfm b7, b0, b5 == mmfm b7, b5, b5) is not a truncation
+                prefix = re.search(r"([A-Za-z$%]+)$", t[:span[0]])
+                others = set(int(x) for x in re.findall(r"(?<![A-Za-z0-9_])%s(\d+)(?![0-9A-Za-z_])" % re.escape(prefix.group(1)),
+                                                         t[:span[0] - len(prefix.group(1))] + " " + t[span[1]:])) if prefix else set()
+                if sum(1 for x in vs if x not in others) <= 1:
+                    continue
                 return dict(kind="register_collision", values=vs[:6], bytes=b.hex())
             canon = sorted(set(x if x < (1 << 31) else x - (1 << 32) for x in vs))
             neg = [x for x in canon if x < 0]
@@ -145,6 +152,32 @@ def check_template(w, s, cpu, directive, unit, t, span, is_reg):
     return None
 
 
+def templates_of(cpu):
+    seen = set()
+    templates = []
+    for t in c02.universe(cpu):
+        for m in c02.NUM.finditer(t):
+            span = m.span(1) if m.group(1) else m.span(2)
+            # a unary minus in front of the literal belongs to the operand value
+            j = span[0]
+            while j > 0 and t[j - 1] == " ":
+                j -= 1
+            if j > 0 and t[j - 1] == "-" and (j == 1 or t[j - 2] in " ,#(=[:+*"):
+                span = (j - 1, span[1])
+            k = shape_key(t, span)
+            if k not in seen:
+                seen.add(k)
+                templates.append((t, span, False, k))
+        for m in REGTOK.finditer(t):
+            if re.search(r"[{}]|\.\.|[A-Za-z][0-9]+\s*[-/]\s*[A-Za-z]+[0-9]", t):
+                continue                             # register lists/ranges are sets: d5/d5 == d5
+            k = "reg:" + shape_key(t, m.span(2))
+            if k not in seen:
+                seen.add(k)
+                templates.append((t, m.span(2), True, k))
+    return templates
+
+
 def run(tier, seed, shard, nshards):
     s = Stats()
     w = Worker("c06", timeout=120)
@@ -157,22 +190,7 @@ def run(tier, seed, shard, nshards):
         for cpu in cpus:
             directive = progs.CPU_FILES.get(cpu, cpu)
             unit = units.get(directive, 1)
-            seen = set()
-            templates = []
-            for t in c02.universe(cpu):
-                for m in c02.NUM.finditer(t):
-                    span = m.span(1) if m.group(1) else m.span(2)
-                    k = shape_key(t, span)
-                    if k not in seen:
-                        seen.add(k)
-                        templates.append((t, span, False, k))
-                for m in REGTOK.finditer(t):
-                    if re.search(r"[{}]|\.\.|[A-Za-z][0-9]+\s*[-/]\s*[A-Za-z]+[0-9]", t):
-                        continue                             # register lists/ranges are sets: d5/d5 == d5
-                    k = "reg:" + shape_key(t, m.span(2))
-                    if k not in seen:
-                        seen.add(k)
-                        templates.append((t, m.span(2), True, k))
+            templates = templates_of(cpu)
             if tier == "quick" and len(templates) > 20:
                 # deterministic per-cpu base sample + a seeded extra sample
                 base = templates[::max(1, len(templates) // 12)][:12]
@@ -226,6 +244,16 @@ def replay(payload):
         units = {c["name"]: c["unit"] for c in w.cpus()}
         cpu = payload["cpu"]
         directive = progs.CPU_FILES.get(cpu, cpu)
+        if "text" not in payload:
+            # known-finding examples carry (cpu, key): find the template again
+            found = None
+            for t, span, is_reg, key in templates_of(cpu):
+                if key == payload["key"]:
+                    found = (t, span, is_reg)
+                    break
+            if found is None:
+                return False, "template no longer exists"
+            payload = dict(payload, text=found[0], span=list(found[1]), is_reg=found[2], kind=payload.get("kind", "truncation"))
         try:
             res = check_template(w, s, cpu, directive, units.get(directive, 1), payload["text"], tuple(payload["span"]),
                                  payload["is_reg"])
